@@ -590,6 +590,13 @@ fn try_spawn_input_processing<'scope>(
     scope: &Scope<'scope>,
 ) {
     loop {
+        // Once all input groups have been taken, a new task would find nothing to do and would just
+        // give its reservation straight back, which would let us reserve and spawn again. Whether
+        // this loop then ends would depend on how quickly those no-op tasks get run.
+        if resources.unprocessed.is_empty() {
+            return;
+        }
+
         let Ok(mut reservation) = resources.reuse_pool.try_reserve(MERGE_STRING_BUCKETS) else {
             return;
         };
